@@ -77,7 +77,7 @@ func (h *harness) rebuild() {
 		h.out = append(h.out, h.canon(call.Argument(0)))
 		return otto.Value{}
 	})
-	if _, err := vm.Run(prelude); err != nil {
+	if _, err := vm.Run(prelude + dynPrelude); err != nil {
 		h.buildErr = "prelude: " + err.Error()
 		return
 	}
@@ -119,7 +119,7 @@ func (h *harness) inject(v *val) (otto.Value, error) {
 		return otto.UndefinedValue(), nil
 	case v.name == "null":
 		return otto.NullValue(), nil
-	case v.carrier == "lit":
+	case v.carrier == "lit" || v.carrier == "u16":
 		res := ox.Run(h.vm, v.src)
 		if res.Panicked {
 			return otto.Value{}, fmt.Errorf("panic: %v", res.PanicVal)
@@ -222,6 +222,7 @@ var allQuirks = []quirk{
 	{"c05-string-less-codepoint", func(q *conv.Quirks) { q.StringLessByCodePoint = true }},
 	{"c05-bound-own-prototype", func(q *conv.Quirks) { q.BoundOwnPrototype = true }},
 	{"c05-string-index-parseint", func(q *conv.Quirks) { q.StringIndexParseInt = true }},
+	{"c05-lone-surrogate-fffd", func(q *conv.Quirks) { q.LoneSurrogateFFFD = true }},
 }
 
 // openQuirks: the alternative behaviours that have an open known finding.
